@@ -3492,7 +3492,10 @@ class Inflate(Array):
 
     def _intbounds_impl(self):
         lower, upper = self.func._intbounds
-        return min(lower, 0), max(upper, 0)
+        # Entries of `dofmap` may coincide, in which case the corresponding
+        # values of `func` are added.
+        n = util.product((length._intbounds[1] for length in self.dofmap.shape), 1)
+        return min(lower and n and lower * n, 0), max(upper and n and upper * n, 0)
 
     def _argument_degree(self, argument):
         if argument not in self.dofmap.arguments and argument not in self.length.arguments:
